@@ -75,6 +75,7 @@ func (l *storeLog) react(action k8stesting.Action) (bool, runtime.Object, error)
 }
 
 type ipamWorld struct {
+	hcli  *hookedCli
 	cli   *fakeGalaxyCli.Clientset
 	log   *storeLog
 	ipam  floatingip.IPAM
@@ -91,7 +92,8 @@ type pendingEv struct {
 func newIpamWorld() *ipamWorld {
 	w := &ipamWorld{cli: fakeGalaxyCli.NewSimpleClientset(), log: &storeLog{fault: -1}, pending: map[string]pendingEv{}}
 	w.cli.PrependReactor("*", "floatingips", w.log.react)
-	w.ipam = floatingip.NewCrdIPAM(w.cli, nil)
+	w.hcli = &hookedCli{Interface: w.cli}
+	w.ipam = floatingip.NewCrdIPAM(w.hcli, nil)
 	return w
 }
 
@@ -190,7 +192,12 @@ func (w *ipamWorld) dump() map[string]interface{} {
 		}
 	}
 	sort.Slice(store, func(i, j int) bool { return store[i][0].(uint32) < store[j][0].(uint32) })
-	return map[string]interface{}{"alloc": alloc, "unalloc": unalloc, "store": store}
+	pend := []uint32{}
+	for n := range w.pending {
+		pend = append(pend, nets.IPToInt(net.ParseIP(n)))
+	}
+	sort.Slice(pend, func(i, j int) bool { return pend[i] < pend[j] })
+	return map[string]interface{}{"alloc": alloc, "unalloc": unalloc, "store": store, "pending": pend}
 }
 
 func (w *ipamWorld) runOp(c map[string]interface{}) map[string]interface{} {
@@ -202,7 +209,7 @@ func (w *ipamWorld) runOp(c map[string]interface{}) map[string]interface{} {
 	switch Str(c, "op") {
 	case "configure", "restart":
 		if Str(c, "op") == "restart" {
-			w.ipam = floatingip.NewCrdIPAM(w.cli, nil)
+			w.ipam = floatingip.NewCrdIPAM(w.hcli, nil)
 			w.pending = map[string]pendingEv{}
 		} else {
 			w.pools = nil
@@ -216,10 +223,40 @@ func (w *ipamWorld) runOp(c map[string]interface{}) map[string]interface{} {
 			o["decode_err"] = err.Error()
 			return o
 		}
+		// "during_list": another request arrives while ConfigurePool is listing the store.  It runs in its own
+		// goroutine; if ConfigurePool holds the cache lock across the list it can only complete afterwards.
+		var nestedDone chan struct{}
+		var nestedRes map[string]interface{}
+		during := false
+		if nested, ok := c["during_list"].(map[string]interface{}); ok {
+			nestedDone = make(chan struct{})
+			w.hcli.onList = func() {
+				go func() {
+					ex := w.resolve(nested)
+					nestedRes = w.runOpNoLog(ex)
+					nestedRes["exec"] = ex
+					close(nestedDone)
+				}()
+				select {
+				case <-nestedDone:
+					during = true
+				case <-time.After(250 * time.Millisecond):
+				}
+			}
+		}
 		w.log.begin(fault)
 		err = w.ipam.ConfigurePool(pools)
 		o["calls"] = w.log.end()
 		o["res"] = errClass(err)
+		if nestedDone != nil {
+			select {
+			case <-nestedDone:
+				nestedRes["during"] = during
+				o["nested"] = nestedRes
+			case <-time.After(5 * time.Second):
+				o["nested"] = map[string]interface{}{"res": "timeout"}
+			}
+		}
 	case "alloc_specific":
 		w.log.begin(fault)
 		err := w.ipam.AllocateSpecificIP(Str(c, "key"), ipOf(Str(c, "ip")), attrOf(c))
@@ -346,6 +383,93 @@ func (w *ipamWorld) runOp(c map[string]interface{}) map[string]interface{} {
 	return o
 }
 
+// runOpNoLog runs a deterministic operation (no oracle needed) without touching the call log of the enclosing one
+func (w *ipamWorld) runOpNoLog(c map[string]interface{}) map[string]interface{} {
+	o := map[string]interface{}{}
+	switch Str(c, "op") {
+	case "alloc_specific":
+		o["res"] = errClass(w.ipam.AllocateSpecificIP(Str(c, "key"), ipOf(Str(c, "ip")), attrOf(c)))
+	case "alloc_ranges":
+		ips, err := w.ipam.AllocateInSubnetsAndIPRange(Str(c, "key"), subnetOf(Str(c, "subnet")), rangesOf(c["ranges"]), attrOf(c))
+		o["res"] = errClass(err)
+		l := []uint32{}
+		for _, ip := range ips {
+			l = append(l, nets.IPToInt(ip))
+		}
+		o["ips"] = l
+	case "release":
+		o["res"] = errClass(w.ipam.Release(Str(c, "key"), ipOf(Str(c, "ip"))))
+	default:
+		o["res"] = "harness-error"
+	}
+	return o
+}
+
+// resolve replaces symbolic references by concrete values taken from the CURRENT tables, so that a
+// state-free generator still produces mostly meaningful operations:
+//   "@a<k>" / "@u<k>" as ip  -> the k-th (mod n) allocated / free address (ascending)
+//   "@ka<k>" as key/old/new  -> the key of the k-th allocated entry
+// The concrete operation that was executed is returned as "exec".
+func (w *ipamWorld) resolve(c map[string]interface{}) map[string]interface{} {
+	d := w.dump()
+	alloc := d["alloc"].([][]interface{})
+	unalloc := d["unalloc"].([]uint32)
+	out := map[string]interface{}{}
+	for k, v := range c {
+		out[k] = v
+	}
+	pick := func(s string) (string, bool) {
+		var k int
+		if s == "@pending" {
+			names := []string{}
+			for n := range w.pending {
+				names = append(names, n)
+			}
+			sort.Strings(names)
+			if len(names) == 0 {
+				return "0.0.0.9", true
+			}
+			return names[0], true
+		}
+		if n, _ := fmt.Sscanf(s, "@a%d", &k); n == 1 {
+			if len(alloc) == 0 {
+				return "0.0.0.9", true
+			}
+			return nets.IntToIP(alloc[k%len(alloc)][0].(uint32)).String(), true
+		}
+		if n, _ := fmt.Sscanf(s, "@u%d", &k); n == 1 {
+			if len(unalloc) == 0 {
+				return "0.0.0.9", true
+			}
+			return nets.IntToIP(unalloc[k%len(unalloc)]).String(), true
+		}
+		if n, _ := fmt.Sscanf(s, "@ka%d", &k); n == 1 {
+			if len(alloc) == 0 {
+				return "nokey", true
+			}
+			return alloc[k%len(alloc)][1].(string), true
+		}
+		return s, false
+	}
+	for _, f := range []string{"ip", "key", "old", "new"} {
+		if s, ok := out[f].(string); ok {
+			if r, ok := pick(s); ok {
+				out[f] = r
+			}
+		}
+	}
+	if m, ok := out["m"].(map[string]interface{}); ok {
+		nm := map[string]interface{}{}
+		for k, v := range m {
+			rk, _ := pick(k)
+			rv, _ := pick(v.(string))
+			nm[rk] = rv
+		}
+		out["m"] = nm
+	}
+	return out
+}
+
 // ipamHistory: {"ops":[...]} -> {"steps":[{res, calls, ..., dump}]}
 func ipamHistory(c map[string]interface{}) map[string]interface{} {
 	w := newIpamWorld()
@@ -354,7 +478,16 @@ func ipamHistory(c map[string]interface{}) map[string]interface{} {
 	for _, op := range ops {
 		opm := op.(map[string]interface{})
 		o := Guarded(10*time.Second, func() map[string]interface{} {
-			r := w.runOp(opm)
+			ex := w.resolve(opm)
+			r := w.runOp(ex)
+			if Str(ex, "op") == "restart" {
+				ps := []interface{}{}
+				for _, t := range w.pools {
+					ps = append(ps, t)
+				}
+				ex["pools"] = ps
+			}
+			r["exec"] = ex
 			r["dump"] = w.dump()
 			return r
 		})
